@@ -713,7 +713,9 @@ def decParamValue (t : Xml) : R RspChild := do
 /-- mirrors _tupleparse.py: parse_error (instances below ERROR are parsed and kept out of the model) -/
 def decError (t : Xml) : R RspChild := do
   let (as, _) ← checkNode t "ERROR" ["CODE"] ["DESCRIPTION"] (some ["INSTANCE"]) false
-  pure (.error (getAttrD as "CODE" "") (Xml.attr as "DESCRIPTION".toList).isSome)
+  match pyInt (getAttrD as "CODE" "") with
+  | none => perr                       -- `int(code)` raises ValueError: CIMXMLParseError
+  | some _ => pure (.error (getAttrD as "CODE" "") (Xml.attr as "DESCRIPTION".toList).isSome)
 
 /-- `list_of_various(tup_tree, ('ERROR', 'IRETURNVALUE', 'PARAMVALUE'))` -/
 def decRspChildren : List Xml → R (List RspChild)
@@ -749,6 +751,10 @@ def RspChild.isIret : RspChild → Bool
   | .iret _ => true
   | _ => false
 
+def RspChild.isError : RspChild → Bool
+  | .error _ _ => true
+  | _ => false
+
 /-- the checks of `_imethodcall` after parsing: ERROR first, then unexpected return value / output
     parameters; `none` = the empty child list (`tup_tree = None`) -/
 def imethodResult (row : Row) (kids : List RspChild) : R (Option (List RspChild)) :=
@@ -758,7 +764,8 @@ def imethodResult (row : Row) (kids : List RspChild) : R (Option (List RspChild)
     | some n => .error (.cimError n.toNat)
     | none => .error .valueError
   | _ =>
-    if !row.hasReturn && kids.any RspChild.isIret then perr
+    if kids.any RspChild.isError then perr          -- ERROR is allowed only as the first child
+    else if !row.hasReturn && kids.any RspChild.isIret then perr
     else if !row.hasOut && kids.any (fun k => !k.isIret) then perr
     else if kids.isEmpty then pure none else pure (some kids)
 
@@ -790,63 +797,71 @@ def plainObjs : List CItem → R (List Obj)
     pure (o :: t)
   | _ :: _ => perr
 
-/-- `[x[2] for x in result[0][2]]` -/
+/-- mirrors _cim_operations.py: _unpack_object_elements (`item[2]` of every (name, attrs, object) tuple;
+    an item that was not parsed into a tuple is a CIMXMLParseError) -/
 def third : List CItem → R (List CObj)
   | [] => pure []
   | .tagged _ x :: r => do
     let t ← third r
     pure (x :: t)
-  | _ :: _ => .error .typeError
+  | _ :: _ => perr
 
-/-- mirrors _cim_operations.py: _get_rslt_params -/
-def rsltParams (ns : Str) (kids : List RspChild) : R (List CItem × Bool × Option (Option Str × Str)) :=
-  let step (acc : R (List CItem × Bool × Option Str × Bool × Bool)) (k : RspChild) :=
-    match acc with
-    | .error e => Except.error e
-    | .ok (objs, eos, ctx, eosFound, ctxFound) =>
-      match k with
-      | .param n _ v _ =>
-        if n = "EndOfSequence".toList then
-          match v with
-          | some s =>
-            if lowerAscii s = "true".toList then .ok (objs, true, ctx, true, ctxFound)
-            else if lowerAscii s = "false".toList then .ok (objs, false, ctx, true, ctxFound)
-            else perr
-          | none => .ok (objs, eos, ctx, eosFound, ctxFound)
-        else if n = "EnumerationContext".toList then
-          match v with
-          | some s => .ok (objs, eos, some s, eosFound, true)
-          | none => .ok (objs, eos, ctx, eosFound, true)
-        else .ok (objs, eos, ctx, eosFound, ctxFound)
-      | .iret l => .ok (l, eos, ctx, eosFound, ctxFound)
-      | .error _ _ => .ok (objs, eos, ctx, eosFound, ctxFound)
-  match kids.foldl step (.ok ([], false, none, false, false)) with
+/-- what `_get_rslt_params` is told to expect in IRETURNVALUE -/
+inductive PullKind where
+  | insts (withPath : Bool)          -- CIMInstance (with_path)
+  | paths                            -- CIMInstanceName
+
+def pullItemOk : PullKind → CItem → Bool
+  | .insts wp, .plain (.inst (.mk _ p _ _)) => !wp || p.isSome
+  | .paths, .plain (.path p) => Path.isInst p
+  | _, _ => false
+
+/-- one step of the loop of `_get_rslt_params` over the children of IMETHODRESPONSE -/
+def rsltStep (acc : R (List CItem × Bool × Option Str × Bool × Bool)) (k : RspChild) :
+    R (List CItem × Bool × Option Str × Bool × Bool) :=
+  match acc with
+  | .error e => Except.error e
+  | .ok (objs, eos, ctx, eosFound, ctxFound) =>
+    match k with
+    | .param n _ v _ =>
+      if n = "EndOfSequence".toList then
+        match v with
+        | some s =>
+          if lowerAscii s = "true".toList then .ok (objs, true, ctx, true, ctxFound)
+          else if lowerAscii s = "false".toList then .ok (objs, false, ctx, true, ctxFound)
+          else perr
+        | none => .ok (objs, eos, ctx, eosFound, ctxFound)
+      else if n = "EnumerationContext".toList then
+        match v with
+        | some s => .ok (objs, eos, some s, eosFound, true)
+        | none => .ok (objs, eos, ctx, eosFound, true)
+      else .ok (objs, eos, ctx, eosFound, ctxFound)
+    | .iret l => .ok (l, eos, ctx, eosFound, ctxFound)
+    | .error _ _ => .ok (objs, eos, ctx, eosFound, ctxFound)
+
+/-- mirrors _cim_operations.py: _get_rslt_params(result, namespace, object_type, with_path) -/
+def rsltParams (kind : PullKind) (ns : Str) (kids : List RspChild) :
+    R (List CItem × Bool × Option (Option Str × Str)) :=
+  match kids.foldl rsltStep (.ok ([], false, none, false, false)) with
   | .error e => .error e
   | .ok (objs, eos, ctx, eosFound, ctxFound) =>
-    if !eosFound && !ctxFound then perr
+    if !objs.all (pullItemOk kind) then perr
+    else if !eosFound && !ctxFound then perr
     else if !eos && ctx.isNone then perr
     else pure (objs, eos, if eos then none else some (ctx, ns))
 
 def objsToC (l : List Obj) : List CObj := l.map CObj.obj
 
-/-- the loop `for classpath, klass in objects:` of `_get_returned_objects` (class-level invocation):
-    a pair passes when it is (CIMClassName, CIMClass); any other entry is unpacked by iteration —
-    CIMInstance iterates over its property names, CIMInstanceName over its key names (exactly two give
-    two strings, which then fail the isinstance test; another count is a ValueError), CIMClassName is
-    not iterable (TypeError) -/
+/-- the class-level loop of `_get_returned_objects`: every entry must be a tuple (CIMClassName, CIMClass) -/
 def classLevelObjects (all : List CObj) : List CObj → R CVal
   | [] => pure (.list all)
   | .pair (.cls ..) _ :: r => classLevelObjects all r
-  | .pair _ _ :: _ => perr
-  | .obj (.inst (.mk _ _ ps _)) :: _ => if ps.length = 2 then perr else .error .valueError
-  | .obj (.path (.inst _ _ _ ks)) :: _ => if ks.length = 2 then perr else .error .valueError
-  | .obj _ :: _ => .error .typeError
+  | _ :: _ => perr
 
 /-- `instance.path.namespace = namespace` (EnumerateInstances) -/
 def fixInstNs (ns : Str) : Obj → R CObj
   | .inst (.mk c (some p) pr q) => pure (.obj (.inst (.mk c (some (Path.setNs ns p)) pr q)))
-  | .inst (.mk _ none _ _) => .error .attributeError
-  | _ => perr
+  | _ => perr                         -- not a CIMInstance, or an instance without path
 
 /-- `instancepath.namespace = namespace` (EnumerateInstanceNames) -/
 def fixNameNs (ns : Str) : Obj → R CObj
@@ -857,7 +872,7 @@ def fixNameNs (ns : Str) : Obj → R CObj
 def fixQueryInst (ns : Str) : CObj → R CObj
   | .obj (.inst (.mk c (some p) pr q)) => pure (.obj (.inst (.mk c (some (Path.setNs ns p)) pr q)))
   | .obj (.inst (.mk c none pr q)) => pure (.obj (.inst (.mk c (some (.inst c none (some ns) [])) pr q)))
-  | _ => .error .attributeError
+  | _ => perr                         -- not a CIMInstance
 
 /-- `klass.path = CIMClassName(klass.classname, host=self.host, namespace=namespace)` -/
 def fixClassPath (host ns : Str) : Obj → R CObj
@@ -917,7 +932,8 @@ def clientPost (row : Row) (ns host : Str) (ps : Params) (res : Option (List Rsp
     | some kids => do
       let objs ← third (← firstIret kids)
       if isInstTarget then
-        if objs.all (fun o => match o with | .obj (.inst _) => true | _ => false) then pure (.list objs) else perr
+        if objs.all (fun o => match o with | .obj (.inst (.mk _ (some _) _ _)) => true | _ => false) then
+          pure (.list objs) else perr
       else
         -- `for classpath, klass in objects`: tuple unpacking of each entry, then the isinstance checks
         classLevelObjects objs objs
@@ -936,24 +952,25 @@ def clientPost (row : Row) (ns host : Str) (ps : Params) (res : Option (List Rsp
       let objs ← third (← firstIret kids)
       let fixed ← objs.mapM (fixQueryInst ns)
       pure (.list fixed)
-  | .pullInsts | .pullPaths | .openQuery =>
-    match res with
-    | none => .error .typeError        -- `for p in None`
-    | some kids => do
-      let (items, eos, ctx) ← rsltParams ns kids
-      let objs : List CObj := items.filterMap (fun x => match x with
-        | .plain o => some (.obj o)
-        | .tagged _ x => some x
-        | _ => none)
-      -- OpenQueryInstances: `_GetQueryRsltClass(result) if ReturnQueryResultClass else None`
-      let wantsClass : Bool := row.post == .openQuery && ps.any (fun p =>
-        p.1 == "ReturnQueryResultClass".toList && (match p.2 with | some (.bool true) => true | _ => false))
-      if wantsClass && !(match kids.find? (fun k => match k with
-            | .param n _ _ _ => n == "QueryResultClass".toList
-            | _ => false) with
-          | some (.param _ _ _ true) => true
-          | _ => false) then perr
-      else pure (.pull objs eos ctx)
+  | .pullInstsPath | .pullInsts | .pullPaths | .openQuery => do
+    let kind : PullKind := match row.post with
+      | .pullInstsPath => .insts true
+      | .pullPaths => .paths
+      | _ => .insts false
+    -- `for p in result or []`
+    let (items, eos, ctx) ← rsltParams kind ns (res.getD [])
+    let objs : List CObj := items.filterMap (fun x => match x with
+      | .plain o => some (.obj o)
+      | _ => none)
+    -- OpenQueryInstances: `_GetQueryRsltClass(result) if ReturnQueryResultClass else None`
+    let wantsClass : Bool := row.post == .openQuery && ps.any (fun p =>
+      p.1 == "ReturnQueryResultClass".toList && (match p.2 with | some (.bool true) => true | _ => false))
+    if wantsClass && !(match (res.getD []).find? (fun k => match k with
+          | .param n _ _ _ => n == "QueryResultClass".toList
+          | _ => false) with
+        | some (.param _ _ _ true) => true
+        | _ => false) then perr
+    else pure (.pull objs eos ctx)
   | .enumClasses =>
     match res with
     | none => pure (.list [])
